@@ -12,6 +12,7 @@ import TzVerif.Model.TzFile
 import TzVerif.Spec.Tzif
 import TzVerif.Proofs.TzifRoundTrip
 import TzVerif.Proofs.TzifReject
+import TzVerif.Proofs.TzifSound
 
 namespace TzVerif.C08
 open TzVerif.Model TzVerif.Proofs
@@ -100,5 +101,24 @@ theorem accepted_files_are_well_formed (b : Bytes) (z : TimeZone) (h : parseTzFi
 theorem legacy_counterexample :
     (parseFooterLegacy [10] false).isOk = true ∧ parseFooter [10] false = .error (.tzFile .invalidFooter) := by
   decide
+
+/-- SOUNDNESS (the converse of the round trip): whatever bytes the decoder accepts as a version-1 file ARE a
+    file the independent writer produces for the decoded zone under some layout — nothing is accepted that is
+    not a well-formed file denoting exactly the answer. -/
+theorem accepted_v1_is_written (b : Bytes) (hb : ∀ x ∈ b, x < 256) (z : TimeZone) (h : parseTzFile b = .ok z)
+    (hv : b.getD 4 0 = 0) :
+    ∃ l : Spec.Layout, Spec.LayoutOK z l ∧ l.versionByte = 0 ∧ Spec.TimesFit 32 z ∧ z.extraRule = none ∧
+      b = Spec.encodeV1 z l :=
+  decode_sound_v1 b hb z h hv
+
+/-- the same for versions 2 and 3: a well-sized 32-bit block, the writer's 64-bit block for the decoded zone,
+    and a footer whose text denotes the zone's rule -/
+theorem accepted_v2_is_written (b : Bytes) (hb : ∀ x ∈ b, x < 256) (z : TimeZone) (h : parseTzFile b = .ok z)
+    (hv : b.getD 4 0 ≠ 0) :
+    ∃ (v1 : Bytes) (l : Spec.Layout) (footerText : Bytes),
+      Spec.V1BlockOK v1 ∧ Spec.LayoutOK z l ∧ (l.versionByte = 0 ∨ l.versionByte = 50 ∨ l.versionByte = 51) ∧
+      Spec.TimesFit 64 z ∧ b = Spec.encodeV2 v1 z l footerText ∧
+      parseFooter ([10] ++ footerText ++ [10]) (l.versionByte == 51) = .ok z.extraRule :=
+  decode_sound_v2 b hb z h hv
 
 end TzVerif.C08
